@@ -10,7 +10,7 @@ CLAIMED = {
   "technique": "Lean 4 proof (name-mangler invariants and format-table consistency over tables regenerated from the live code and from go/build) + generate-and-compile oracle over table-directed specs, a fixed shape corpus and single-adversarial-name specs",
   "text": ("Proof, partial: over tables regenerated on every run (LanguageOpts.ReservedWords and the manglers' behaviour on probe names; go/build's own decision about which file-name endings carry a build "
            "constraint; the live type/format/zero/converter/formatter tables): reserved_is_go_keywords, mangleVar_not_keyword (for ALL names), tokens_covered + appended_is_neutral => file_never_excluded (for "
-           "ALL names, no generated file is left out by go build on any platform), special_dirs_renamed, strfmt_formats_have_formatter / _have_zero, numeric_formats_convert, converters_formatters_paired. "
+           "ALL names, no generated file is left out by go build on any platform), special_dirs_renamed, strfmt_formats_have_formatter / _have_zero, numeric_formats_convert, converters_formatters_paired; timeout_field_fresh: for EVERY set of parameter names renameTimeout terminates (its Go recursion is unbounded) and returns a name colliding with none of them. "
            "Not proved: that template output is well-typed Go - there is no model of the Go type checker; that part is decided by compiling: (a) one definition per build token and every format in every "
            "parameter position, (b) a FIXED corpus of specs covering every schema shape / parameter location / collectionFormat / response layout, generated as server+client and as cli under minimal flatten, "
            "full flatten and expand, (c) a fixed small spec with ONE adversarial name (188-name pool: keywords, predeclared and generated-code identifiers, file-name tokens, punctuation, digits, non-ASCII) at "
